@@ -351,8 +351,8 @@ class CInterp:
                     return l
                 return [self._ite(Z(p) == k, rec(old, path[1:]), old) for k, old in enumerate(cur)]
             if isinstance(cur, SStr):
-                # writing a char into a string buffer: only '\0' truncation at strlen-1 is modelled by callers
-                raise Undecided("char store into symbolic string")
+                # writing a char into a string buffer (e.g. stripping a trailing '/'): content becomes unknown
+                return SStr((("sym", "edited:" + repr(cur.key())[:40]),))
             raise Undecided("store path %r in %r" % (path, cur))
         st.mem[oid] = rec(val, path)
 
@@ -1157,10 +1157,9 @@ class CInterp:
             if isinstance(a, Ptr) and is_conc(b) and b == 0:
                 return self.isnull(a) if op == "==" else simp(z3.Not(B(self.isnull(a))))
             raise Undecided("pointer comparison")
-        if isinstance(a, Opaque) or isinstance(b, Opaque):
-            raise Undecided("comparison of opaque value in %s" % self.func)
-        if isinstance(a, tuple) or isinstance(b, tuple):
-            return ("cmp", op, a, b)
+        if isinstance(a, Opaque) or isinstance(b, Opaque) or isinstance(a, tuple) or isinstance(b, tuple):
+            # floating point / unknown character: the comparison may go either way (over-approximation)
+            return fresh_bool("opaque_cmp")
         a, b = Z(a), Z(b)
         return simp({"<": a < b, "<=": a <= b, ">": a > b, ">=": a >= b, "==": a == b, "!=": a != b}[op])
 
